@@ -691,6 +691,7 @@ func (nw *zzvNet) disconnect(a, b string) {
 }
 
 func (nw *zzvNet) peerGone(n, p string) { // Agent.handlePeerDisconnect
+	nw.rejoin = nil
 	m := nw.nodes[n].mgr
 	id := nw.nodes[p].id
 	// the flooder is told first (if it has such a notification), then the routes are removed
@@ -940,7 +941,7 @@ func (nw *zzvNet) checkState(linkCount int) {
 	}
 	// C12/C14: a peer that (re)connected holds, at quiescence, every route the other end holds and could give it by
 	// its table replay (the connect being the last topology / ageing event)
-	if quiet && reachOK && len(nw.rejoin) == 2 {
+	if quiet && reachOK && len(nw.rejoin) == 2 && !nw.aged {
 		for i := 0; i < 2; i++ {
 			n, p := nw.rejoin[i], nw.rejoin[1-i]
 			ne, _ := nw.table(nw.nodes[n])
